@@ -29,6 +29,8 @@ def main():
     for f in os.listdir(src):
         if f == "meta.json" and os.path.exists(os.path.join(dest, f)):
             continue  # keep the recorded confirmation
+        if f == "patch.diff" and os.path.exists(os.path.join(dest, "patch.orig.diff")):
+            continue  # patch.diff was rebased by hand onto the hooked tree; the author's version is patch.orig.diff
         if os.path.isfile(os.path.join(src, f)) and os.path.getsize(os.path.join(src, f)) < 2_000_000:
             shutil.copy(os.path.join(src, f), dest)
     patch = os.path.join(dest, "patch.diff")
